@@ -218,6 +218,24 @@ def check(c):
         kl_again = TS.KL(state, lib_t, space, bases=bases)
         require(is_plain_float(kl_again) and (abs(kl_again - kl_want) <= 1e-8 * (1 + abs(kl_want))), "KL:not-repeatable", f"KL changed to {kl_again} on a later call (expected {kl_want})")
 
+    # the caller re-uses the SAME target tensor object for another target (fills it in place) and asks again: the answers must be those
+    # of the new contents; then the first contents are put back
+    if not risky:
+        t2 = (own + 0.5 * target) if not dens else (0.5 * own + 0.5 * target)
+        t2 = t2 / (torch.sqrt((t2.abs() ** 2).sum()) if not dens else t2.diagonal().real.sum())
+        q2 = [born(t2, b) for b in blist]
+        bound2 = max(float((q / q.sum() * 4e-16 / inv_cond(model, b).clamp(min=1e-300))[q > 0].sum()) for q, b in zip(q2, blist))
+        if not any(bool(((p < TINY) & (q > 0)).any()) for p, q in zip(ps, q2)) and bound2 <= 1e-10:
+            want2 = sum(kl_ref(q / q.sum(), p / p.sum()) for q, p in zip(q2, ps)) / len(blist)
+            lib_t.copy_(R.c_to_lib(t2))
+            kl2 = TS.KL(state, lib_t, space, bases=bases)
+            f2_ = TS.fidelity(state, lib_t, space)
+            lib_t.copy_(keep_t)
+            require(abs(kl2 - want2) <= 1e-8 * (1 + abs(want2)), "KL:target-refilled-in-place", f"after the caller filled the same target tensor with another state KL = {kl2}, expected {want2} (first target: {kl_want})")
+            require(abs(f2_ - fid_ref(t2, own)) <= (1e-6 if dens else 1e-8), "fidelity:target-refilled-in-place", f"after the caller filled the same target tensor with another state fidelity = {f2_}, expected {fid_ref(t2, own)}")
+            kl3 = TS.KL(state, lib_t, space, bases=bases)
+            require(abs(kl3 - kl_want) <= 1e-8 * (1 + abs(kl_want)), "KL:target-restored", f"with the first target contents restored KL = {kl3}, expected {kl_want}")
+
     # ---------------- NLL
     rows = born_rows({"state": sc, "rows": c["rows"]})
     N = len(rows)
